@@ -92,6 +92,7 @@ func (vc *VC) havocFor(h *Heap, ms *ModSet) {
 	a1 := vc.fresh("$alloc", SInt)
 	vc.emit(fmt.Sprintf("(assert (>= %s %s))", a1, a0))
 	h.m["$alloc"] = a1
+	vc.flushWf(h)
 }
 
 // declare the components in the callee's modset so havocFor sees them
@@ -99,6 +100,9 @@ func (vc *VC) declareModSet(ms *ModSet) {
 	for c, s := range ms.Sorts {
 		vc.importSort(s)
 		vc.compDecl(c, s)
+		if t, ok := ms.Types[c]; ok {
+			vc.compType[c] = t
+		}
 	}
 }
 
@@ -142,8 +146,8 @@ func (vc *VC) applyContractOn(callee *ssa.Function, args []Term, preIn *Heap, r 
 			if err != nil {
 				panic(evalError{fmt.Sprintf("requires of %s: %v", key, err)})
 			}
-			vc.oblige("call-requires", fmt.Sprintf("call.%s.%s.%d", label, c.clauseName(cl, i), k), vc.safetyTags(), r, s, cl.Src)
-			vc.assume(r, s)
+			vc.oblige("call-requires", fmt.Sprintf("call.%s.%s.%d", label, c.clauseName(cl, i), k), vc.safetyTags(), r, implies(and(env.lastFacts...), s), cl.Src)
+			vc.assume(r, and(append(append([]string{}, env.lastFacts...), s)...))
 		}
 		switch c.PanicsMode {
 		case "never":
@@ -152,6 +156,7 @@ func (vc *VC) applyContractOn(callee *ssa.Function, args []Term, preIn *Heap, r 
 			if err != nil {
 				panic(evalError{fmt.Sprintf("panics-when of %s: %v", key, err)})
 			}
+			vc.assume(r, and(env.lastFacts...))
 			vc.check("call."+label, r, not(s), "callee "+label+" panics when "+c.PanicsWhen.Src)
 		default:
 			vc.safety("call."+label, r, "false", "callee "+label+" has no panic-freedom contract")
@@ -215,7 +220,7 @@ func (vc *VC) applyContractOn(callee *ssa.Function, args []Term, preIn *Heap, r 
 			}
 		}
 		for _, cl := range c.Ensures {
-			s, err := env2.evalBool(cl.Expr)
+			s, err := env2.evalAssume(cl.Expr)
 			if err != nil {
 				panic(evalError{fmt.Sprintf("ensures of %s: %v", key, err)})
 			}
@@ -349,8 +354,8 @@ func (vc *VC) dynamicCall(c *ssa.CallCommon, h *Heap, reach *string) []Term {
 		if err != nil {
 			panic(evalError{fmt.Sprintf("requires of typed %s: %v", tc.Typed, err)})
 		}
-		vc.oblige("call-requires", fmt.Sprintf("call.typed.%s.%s.%d", tc.Typed, tc.clauseName(cl, i), k), vc.safetyTags(), *reach, s, cl.Src)
-		vc.assume(*reach, s)
+		vc.oblige("call-requires", fmt.Sprintf("call.typed.%s.%s.%d", tc.Typed, tc.clauseName(cl, i), k), vc.safetyTags(), *reach, implies(and(env.lastFacts...), s), cl.Src)
+		vc.assume(*reach, and(append(append([]string{}, env.lastFacts...), s)...))
 	}
 	if tc.PanicsMode != "never" {
 		vc.safety("call.typed."+tc.Typed, *reach, "false", "function value of type "+tc.Typed+" may panic")
@@ -369,7 +374,7 @@ func (vc *VC) dynamicCall(c *ssa.CallCommon, h *Heap, reach *string) []Term {
 		}
 	}
 	for _, cl := range tc.Ensures {
-		s, err := env.evalBool(cl.Expr)
+		s, err := env.evalAssume(cl.Expr)
 		if err != nil {
 			panic(evalError{fmt.Sprintf("ensures of typed %s: %v", tc.Typed, err)})
 		}
